@@ -90,3 +90,13 @@ func ruleSessionRemoval(c *Ctx, rule string) {
 	c.Has(rule, brk+"removeSession$1", "broker action removes that session", `^call:router\.\(\*broker\)\.syncRemoveSession\(\^b, \^sess\)$`, 1)
 	c.Reach(rule, dlr+"removeSession", "dealer.removeSession waits for the action", ReachSpec{From: `^send:%d\.actionChan<-closure:`, Stop: `^val:<-makechan\(chan struct\{\},0\)$`, Target: "EXIT", Want: false})
 }
+
+// ruleNoDuplicateCallee: a session is appended to a registration's callees
+// only when it is not already a member.
+func ruleNoDuplicateCallee(c *Ctx, rule string) {
+	sr := dlr + "syncRegister"
+	regPhi := `phi\(%d\.pfxProcRegMap\[%msg\.Procedure\]\|%d\.procRegMap\[%msg\.Procedure\]\|%d\.wcProcRegMap\[%msg\.Procedure\]\)`
+	addCallee := `^store:` + regPhi + `\.&callees=call:builtin:append\(` + regPhi + `\.callees, `
+	c.Guard(rule, sr, "append callee to existing registration", addCallee, 1,
+		clause("callee not already a member", F(`^call:slices\.Contains\(`+regPhi+`\.callees, %callee\)$`)))
+}
